@@ -26,8 +26,8 @@ Qed.
 Lemma recv_oh_queues s m r : Inv s -> lost s = false -> ch_oh s = m :: r ->
   ch_oh (fst (step s RecvOH)) = r /\ ch_ho (fst (step s RecvOH)) = ch_ho s.
 Proof.
-  intros I Hl Hch. unfold step. rewrite Hl. unfold do_recv_oh. rewrite Hch. destruct m as [c [|]|rid]; cbn [fst ch_oh ch_ho]; auto.
-  rewrite do_myref_eq. unfold myref_core. destruct (myref_nth s c I) as (t & Ht & _). rewrite Ht.
+  intros I Hl Hch. unfold step. rewrite Hl. unfold do_recv_oh. rewrite Hch. destruct m as [c [|] w|rid]; cbn [fst ch_oh ch_ho]; auto.
+  rewrite do_myref_eq. unfold myref_core. destruct (myref_nth s c w I) as (t & Ht & _). rewrite Ht.
   destruct (get_ref t (h_nextpid (hd s))) as [[t' p] np]. cbn [fst ch_oh ch_ho]. auto.
 Qed.
 
